@@ -3,6 +3,7 @@ package refcodec
 import (
 	"bytes"
 	"math"
+	"strings"
 	"unicode/utf8"
 
 	"verif/harness/av"
@@ -155,8 +156,8 @@ func (e *Encoder) collectPending(v *av.V) {
 	seen := map[string]bool{}
 	av.Walk(v, func(x *av.V) {
 		if x.K == av.Object {
-			if _, ok := e.classes[x.Type]; !ok && !seen[x.Type] {
-				seen[x.Type] = true
+			if _, ok := e.classes[classKey(x.Type, x.Fields)]; !ok && !seen[classKey(x.Type, x.Fields)] {
+				seen[classKey(x.Type, x.Fields)] = true
 				e.pending = append(e.pending, x)
 			}
 		}
@@ -167,7 +168,7 @@ func (e *Encoder) maybeHoist(what string) {
 	// how many of the pending definitions to emit now (0 = none: define just in time)
 	var todo []*av.V
 	for _, p := range e.pending {
-		if _, ok := e.classes[p.Type]; !ok {
+		if _, ok := e.classes[classKey(p.Type, p.Fields)]; !ok {
 			todo = append(todo, p)
 		}
 	}
@@ -201,9 +202,15 @@ func (e *Encoder) writeClassDef(name string, fields []string) int {
 		e.str(f)
 	}
 	idx := e.nclasses
-	e.classes[name] = idx
+	e.classes[classKey(name, fields)] = idx
 	e.nclasses++
 	return idx
+}
+
+// classKey: a definition is identified by its class name and its field list - two peers (or two releases of a class)
+// may define one class twice on a stream, with other fields or another order; each instance names its own definition
+func classKey(name string, fields []string) string {
+	return name + "\x00" + strings.Join(fields, "\x01")
 }
 
 // Value writes v at the current position.
@@ -587,7 +594,7 @@ func (e *Encoder) mapv(v *av.V) {
 }
 
 func (e *Encoder) object(v *av.V) {
-	idx, ok := e.classes[v.Type]
+	idx, ok := e.classes[classKey(v.Type, v.Fields)]
 	if !ok {
 		idx = e.writeClassDef(v.Type, v.Fields)
 	}
